@@ -178,6 +178,22 @@ func goroutineState() (st gstate) {
 	return
 }
 
+// waiterParked reports whether a goroutine inside Limiter.Wait is parked (it will stay so until the
+// functions finish).
+func waiterParked() bool {
+	buf := make([]byte, 1<<18)
+	n := runtime.Stack(buf, true)
+	for _, g := range strings.Split(string(buf[:n]), "\n\n") {
+		if strings.Contains(g, "goz.(*Limiter).Wait") {
+			head := g[:strings.IndexByte(g+"\n", '\n')]
+			if strings.Contains(head, "[semacquire") || strings.Contains(head, "[sync.WaitGroup.Wait") || strings.Contains(head, "[chan receive") || strings.Contains(head, "[select") {
+				return true
+			}
+		}
+	}
+	return false
+}
+
 // waitQuiescent waits until nothing can change without the harness acting: every launched task has
 // started and is finished or parked on its gate, and the submitter is done or parked in the Limiter.
 // It returns whether the submitter is blocked.
@@ -342,12 +358,26 @@ func run(c limCase, r *pb.Rec) error {
 	if b := atomic.LoadInt32(&w.blocked); blockedSub || int(b) != n {
 		return fmt.Errorf("slot leak after %d panics: only %d of %d later submissions run concurrently (submitter blocked: %v)", len(wantPanics), b, n, blockedSub)
 	}
+	// the Limiter is being reused: Wait() must block while the n functions are parked inside
+	waitDone2 := make(chan struct{})
+	var waitReturned2 int32
+	go func() { l.Wait(); atomic.StoreInt32(&waitReturned2, 1); close(waitDone2) }()
+	for deadline := time.Now().Add(20 * time.Second); ; {
+		if atomic.LoadInt32(&waitReturned2) == 1 {
+			return fmt.Errorf("Wait() on a reused Limiter returned while %d submitted functions were still running", atomic.LoadInt32(&w.blocked))
+		}
+		if waiterParked() {
+			break
+		}
+		if time.Now().After(deadline) {
+			return inconclusive{"the goroutine calling the second Wait() neither parked nor returned within 20s"}
+		}
+		runtime.Gosched()
+	}
 	for i := 0; i < n; i++ {
 		atomic.StoreInt32(&w.opened[base+i], 1)
 		close(w.gates[base+i])
 	}
-	waitDone2 := make(chan struct{})
-	go func() { l.Wait(); close(waitDone2) }()
 	select {
 	case <-waitDone2:
 	case <-time.After(20 * time.Second):
@@ -355,6 +385,9 @@ func run(c limCase, r *pb.Rec) error {
 	}
 	if v := w.violation.Load(); v != nil {
 		return fmt.Errorf("%s", v)
+	}
+	if f := atomic.LoadInt32(&w.finished); int(f) != len(c.Tasks)+n {
+		return fmt.Errorf("second Wait() returned with %d of %d functions finished", f, len(c.Tasks)+n)
 	}
 	if int(atomic.LoadInt32(&w.maxInside)) > n {
 		return fmt.Errorf("max concurrency %d > limit %d", w.maxInside, n)
